@@ -1,0 +1,45 @@
+//! Lets a harness hand `Divan::config_with_args` a command line of its own
+//! instead of the process's, so that the real `clap` command and the real
+//! option handling can be driven many times within one process.
+//!
+//! With no override set (the default) the process's arguments are parsed
+//! exactly as in production. With one set, an error that would make `clap`
+//! print a message and exit the process becomes a panic whose message starts
+//! with [`REJECTED`] (the harness maps it to exit code 2).
+
+use std::cell::RefCell;
+
+/// Prefix of the panic message for a rejected command line.
+pub const REJECTED: &str = "divan_verif: command line rejected: ";
+
+thread_local! {
+    static ARGS: RefCell<Option<Vec<String>>> = const { RefCell::new(None) };
+}
+
+/// Sets (or removes) the current thread's command line; `args[0]` is the
+/// binary name.
+pub fn set_args(args: Option<Vec<String>>) {
+    ARGS.with(|a| *a.borrow_mut() = args);
+}
+
+fn current() -> Option<Vec<String>> {
+    ARGS.with(|a| a.borrow().clone())
+}
+
+/// `Command::get_matches_mut`, on the override if there is one.
+pub(crate) fn matches(command: &mut clap::Command) -> clap::ArgMatches {
+    match current() {
+        Some(args) => match command.try_get_matches_from_mut(args) {
+            Ok(matches) => matches,
+            Err(error) => panic!("{REJECTED}{error}"),
+        },
+        None => command.get_matches_mut(),
+    }
+}
+
+/// Called right before `error.exit()`: panics instead if an override is set.
+pub(crate) fn reject(error: &dyn std::fmt::Display) {
+    if current().is_some() {
+        panic!("{REJECTED}{error}");
+    }
+}
